@@ -3,7 +3,8 @@
 # Coverage-guided campaign (libFuzzer via cargo-fuzz, nightly) with the semantic oracle inside
 # the target. Fresh work corpus from fuzz/seeds/<target> (+ an empty input), -seed=VERIF_SEED,
 # -runs=<runs>. A crash is copied to replays/ and reported as a VIOLATION (exit 1); build
-# failure or tool trouble is exit 2. Appends a line of JSON to .work/fuzz/<target>.stats.
+# failure or tool trouble is exit 2. Writes one line of JSON to .work/fuzz/<target>.stats
+# (executions, coverage, corpus size, and the counters of the target's own VERIF-STAT line).
 set -u
 ROOT="$(cd "$(dirname "${BASH_SOURCE[0]}")/.." && pwd)"
 PROP="$1"; TARGET="$2"; RUNS="$3"; MAXLEN="${4:-1024}"
@@ -26,7 +27,10 @@ execs=$(grep -E "stat::number_of_executed_units" "$LOG" | awk '{print $2}'); exe
 cov=$(grep -E "cov: [0-9]+" "$LOG" | tail -1 | sed -E 's/.*cov: ([0-9]+).*/\1/'); cov=${cov:-0}
 corp=$(ls "$WORK" | wc -l)
 crash=$(ls "$ART" 2>/dev/null | head -1)
-echo "{\"target\":\"$TARGET\",\"runs_requested\":$RUNS,\"executions\":$execs,\"coverage_edges\":$cov,\"corpus\":$corp,\"seed\":$SEED,\"crash\":\"${crash}\"}" > "$ROOT/.work/fuzz/$TARGET.stats"
+# counters the structured targets print at exit ("VERIF-STAT target=… name=N …"): what was built
+# from the bytes, and what was set aside under an open known finding (kf_* / abstained_*)
+tstats=$(grep -E "^VERIF-STAT " "$LOG" | tail -1 | tr ' ' '\n' | grep -E "^[a-z0-9_]+=[0-9]+$" | sed -E 's/^([a-z0-9_]+)=([0-9]+)$/"\1":\2/' | paste -sd, -)
+echo "{\"target\":\"$TARGET\",\"runs_requested\":$RUNS,\"executions\":$execs,\"coverage_edges\":$cov,\"corpus\":$corp,\"seed\":$SEED,\"crash\":\"${crash}\",\"target_stats\":{${tstats}}}" > "$ROOT/.work/fuzz/$TARGET.stats"
 if [ -n "$crash" ]; then
   mkdir -p "$ROOT/replays"
   dest="$ROOT/replays/fuzz-$PROP-$TARGET-$(echo "$crash" | sed 's/[^a-zA-Z0-9]/_/g').bin"
